@@ -421,13 +421,25 @@ def pb_run(case, runner):
     """case["pb1"] = k: run the k-th schedule with exactly one preemption relative to the non-preemptive baseline of this
     configuration (canonical enumeration: by step, then by thread name); k beyond the number of such schedules = the baseline.
     `runner(case)` must put the scheduler's cand_trace into its result under "cand_trace"."""
-    if "pb1" not in case:
+    if "pb1" not in case and "pb2" not in case:
         o = runner(case)
         if isinstance(o, dict):
             o.pop("cand_trace", None)
         return o
     o = runner(dict(case, policy="np"))
     alts = [(i, n) for i, (ch, cs) in enumerate(o.get("cand_trace", [])) for n in cs if n != ch]
+    if "pb2" in case:
+        # two preemptions, sampled: a pair of alternatives of the baseline (the second is taken if that thread is enabled at
+        # that step of the run that already contains the first; otherwise the run continues non-preemptively)
+        import random as _r
+        rg = _r.Random(case["pb2"])
+        if len(alts) >= 2:
+            (s1, n1), (s2, n2) = sorted(rg.sample(alts, 2))
+            if s1 != s2:
+                o = runner(dict(case, policy="pb:%d=%s,%d=%s" % (s1, n1, s2, n2)))
+                o["pb"] = [s1, n1, s2, n2, len(alts)]
+        o.pop("cand_trace", None)
+        return o
     k = case["pb1"]
     if k < len(alts):
         st, name = alts[k]
